@@ -89,7 +89,7 @@ Inductive plabel :=
 | DialOk (k : nat)           (* session.connect returned a connection *)
 | DialFail (k : nat)         (* session.connect returned an error *)
 | KsFail (k : nat)           (* UseKeyspace failed: conn.Close(); return err *)
-| ConnectAdd (k : nat)       (* Lock; closed ? conn.Close() : append; Unlock *)
+| ConnectAdd (k : nat)       (* Lock; closed ? conn.Close() : conn.Closed() ? return err : append; Unlock *)
 | ConnDie (c : nat)          (* the connection fails (read error, heartbeat): Conn.closeWithError closes it *)
 | HErr (c : nat) (t : nat)   (* ... and then calls pool.HandleError(c, err, true): Lock; remove; go fill() as thread t *)
 | PClose                     (* pool.Close(): Lock; closed ? return : closed = true, take conns; Unlock *)
@@ -199,6 +199,11 @@ Definition pstep (s : pool) (l : plabel) : option pool :=
           then Some (mkPool (p_size s) (p_conns s) (p_closed s) (p_filling s) (notify t true (p_threads s))
                        (aremove k (p_tasks s))
                        (p_closing s) (remn c (p_open s)) (p_dead s) (p_next_conn s) (p_next_task s))
+          else if negb (memb c (p_open s))
+          (* conn.Closed(): the connection failed while connect held it: not pooled, return ErrConnectionClosed *)
+          then Some (mkPool (p_size s) (p_conns s) (p_closed s) (p_filling s) (notify t false (p_threads s))
+                       (aremove k (p_tasks s))
+                       (p_closing s) (p_open s) (p_dead s) (p_next_conn s) (p_next_task s))
           else Some (mkPool (p_size s) (p_conns s ++ [c]) (p_closed s) (p_filling s) (notify t true (p_threads s))
                        (aremove k (p_tasks s))
                        (p_closing s) (p_open s) (p_dead s) (p_next_conn s) (p_next_task s))
@@ -288,8 +293,7 @@ Inductive rfl :=
 
 Inductive rsp :=
 | RS0                          (* stop() entered *)
-| RSSend                       (* stopped set by this call; blocked in  d.quit <- struct{}{}  *)
-| RSClose                      (* the send was received; close(d.quit) next *)
+| RSClose                      (* stopped set by this call; close(d.quit) next *)
 | RSDone.                      (* returned *)
 
 Record rdeb := mkR {
@@ -312,12 +316,12 @@ Inductive rlabel :=
 | RDebounce                    (* debounce(): Lock; stopped ? return : timer.Reset *)
 | RTimerFire                   (* the runtime: timer expires, value sent to timer.C (dropped if full) *)
 | RRefreshNow                  (* refreshNow(): Lock; broadcaster==nil ? new + non-blocking send; newListener *)
-| RFlWake (src : rsrc) (t : nat)   (* flusher: select takes a case; for SQuit, t is the stop() call whose send it receives *)
+| RFlWake (src : rsrc)         (* flusher: select takes a case; SQuit: receive from the closed quit channel *)
 | RFlLock                      (* flusher: Lock; stopped ? (stop broadcaster; return) : drain, take broadcaster; Unlock; refreshFn starts *)
 | RFlDone                      (* flusher: refreshFn returned; broadcast; back to select *)
 | RStopCall (t : nat)
 | RStopLock (t : nat)          (* stop(): Lock; stopped ? return : stopped = true; Unlock *)
-| RStopClose (t : nat).        (* stop(): close(d.quit); return *)
+| RStopClose (t : nat).        (* stop(): close(d.quit); return (it does not wait for the flusher) *)
 
 Definition set_rfl (s : rdeb) f := mkR (r_stopped s) (r_now s) (r_armed s) (r_timerc s) (r_bc s) f (r_quit_closed s) (r_stoppers s) (r_calls s) (r_served s) (r_cancelled s).
 Definition set_rstoppers (s : rdeb) st := mkR (r_stopped s) (r_now s) (r_armed s) (r_timerc s) (r_bc s) (r_fl s) (r_quit_closed s) st (r_calls s) (r_served s) (r_cancelled s).
@@ -338,7 +342,7 @@ Definition rstep (s : rdeb) (l : rlabel) : option rdeb :=
       | None => Some (mkR (r_stopped s) true (r_armed s) (r_timerc s) (Some 1%nat) (r_fl s) (r_quit_closed s) (r_stoppers s) (r_calls s) (r_served s) (r_cancelled s))
       | Some n => Some (mkR (r_stopped s) (r_now s) (r_armed s) (r_timerc s) (Some (S n)) (r_fl s) (r_quit_closed s) (r_stoppers s) (r_calls s) (r_served s) (r_cancelled s))
       end
-  | RFlWake src t =>
+  | RFlWake src =>
       match r_fl s with
       | RSelect =>
           match src with
@@ -348,11 +352,7 @@ Definition rstep (s : rdeb) (l : rlabel) : option rdeb :=
           | STimer => if r_timerc s
                     then Some (mkR (r_stopped s) (r_now s) (r_armed s) false (r_bc s) (RWoke STimer) (r_quit_closed s) (r_stoppers s) (r_calls s) (r_served s) (r_cancelled s))
                     else None
-          | SQuit => match alookup t (r_stoppers s) with
-                     | Some RSSend => Some (mkR (r_stopped s) (r_now s) (r_armed s) (r_timerc s) (r_bc s) (RWoke SQuit) (r_quit_closed s)
-                                              (aset t RSClose (r_stoppers s)) (r_calls s) (r_served s) (r_cancelled s))
-                     | _ => if r_quit_closed s then Some (set_rfl s (RWoke SQuit)) else None
-                     end
+          | SQuit => if r_quit_closed s then Some (set_rfl s (RWoke SQuit)) else None
           end
       | _ => None
       end
@@ -380,7 +380,7 @@ Definition rstep (s : rdeb) (l : rlabel) : option rdeb :=
       | Some RS0 =>
           if r_stopped s then Some (set_rstoppers s (aset t RSDone (r_stoppers s)))
           else Some (mkR true (r_now s) (r_armed s) (r_timerc s) (r_bc s) (r_fl s) (r_quit_closed s)
-                       (aset t RSSend (r_stoppers s)) (r_calls s) (r_served s) (r_cancelled s))
+                       (aset t RSClose (r_stoppers s)) (r_calls s) (r_served s) (r_cancelled s))
       | _ => None
       end
   | RStopClose t =>
@@ -398,14 +398,8 @@ Fixpoint rrun (s : rdeb) (ls : list rlabel) : option rdeb :=
   end.
 
 Definition rsp_eqb (a b : rsp) : bool :=
-  match a, b with RS0, RS0 | RSSend, RSSend | RSClose, RSClose | RSDone, RSDone => true | _, _ => false end.
+  match a, b with RS0, RS0 | RSClose, RSClose | RSDone, RSDone => true | _, _ => false end.
 Definition n_in (p : rsp) (st : list (nat * rsp)) : nat := length (filter (fun e => rsp_eqb (snd e) p) st).
-
-(* no request is pending anywhere: no token, no timer running or fired, the flusher has not just
-   taken a token or a timer value *)
-Definition r_calm (s : rdeb) : bool :=
-  negb (r_now s) && negb (r_armed s) && negb (r_timerc s) &&
-  match r_fl s with RWoke SNow | RWoke STimer => false | _ => true end.
 
 (* ======================================================================================== *)
 (* 3. eventDebouncer (events.go)                                                            *)
